@@ -7,7 +7,14 @@ from . import build
 SPECS = {}
 HOOK_COMMITS = []
 HOOKS_NOTE = 'no source hook is needed so far: instrumentation is external (own <ev.h>, #include of echsd.c/echsq.c into harness TUs, macro/link-time interposition)'
-EXTRA_ENGINES = []
+EXTRA_ENGINES = [
+    {'name': 'libFuzzer', 'path': 'fuzz/', 'serves_properties': ['C09', 'C10'],
+     'kind_free_text': 'coverage-guided in-process fuzzing (clang -fsanitize=fuzzer,address) with the property oracle inside the target; runs after the rapidcheck phase of the same check, crash artifacts are converted into native replay cases and confirmed 3x'},
+    {'name': 'echsd harness', 'path': 'sut/sut_echsd.c', 'serves_properties': ['C04', 'C05', 'C06', 'C08', 'C11', 'C12', 'C14'],
+     'kind_free_text': 'the unmodified echsd.c #included after a virtual-time <ev.h> with interposed spawn/passwd/checkpoint system calls and a fault plan; driven by scripts the rapidcheck generators write'},
+    {'name': 'real-process executor runs', 'path': 'props/xrun.hpp', 'serves_properties': ['C13', 'C14', 'C03'],
+     'kind_free_text': 'the echsx (and for C03 the echse) binary built from the tree is run on generated requests; an LD_PRELOAD shim (sut/xshim.c) records sendmail input, alarm(), mkstemp()'},
+]
 NOTES = ('Every check rebuilds the code under test from /repo/src (hash-keyed cache under build/), replays known findings and '
          'regression replays first, then runs generated search on 16 workers; see DESIGN.md.')
 
